@@ -90,6 +90,15 @@ def obj_class(o):
     return type(o).__name__
 
 
+def network_mark(o):
+    """which network the object belongs to, observed through its own address text (the network-specific rendering)"""
+    try:
+        with contextlib.redirect_stdout(io.StringIO()):
+            return o.address()
+    except Exception as e:
+        return "address-unavailable:%s" % type(e).__name__
+
+
 def ident(o):
     """comparable identity of a parse result (may raise: caller wraps)"""
     if o is None:
@@ -101,10 +110,10 @@ def ident(o):
     if c in ("BIP32Node", "BIP49Node", "BIP84Node"):
         pp = o.public_pair()
         return (c, o.secret_exponent(), (int(pp[0]), int(pp[1])), bytes(o.chain_code()).hex(), o.tree_depth(),
-                bytes(o.parent_fingerprint()).hex(), o.child_index())
+                bytes(o.parent_fingerprint()).hex(), o.child_index(), network_mark(o))
     if c in ("Key", "ElectrumWallet"):
         pp = o.public_pair()
-        return (c, o.secret_exponent(), (int(pp[0]), int(pp[1])), bool(o.is_compressed()))
+        return (c, o.secret_exponent(), (int(pp[0]), int(pp[1])), bool(o.is_compressed()), network_mark(o))
     return (c, repr(o))
 
 
@@ -173,6 +182,8 @@ def malformed_clause(kind, rest):
     if len(rest) != 74:
         return "bip32-length"
     key = rest[41:]
+    if key[0] not in (0, 2, 3):
+        return "bip32-key-marker"               # neither a private-key marker (00) nor a compressed public key (02/03)
     if (key[0] == 0) != kind.endswith("prv"):
         return "bip32-version-key-mismatch"
     if key[0] in (2, 3) and int.from_bytes(key[1:], "big") >= R.P:
@@ -255,9 +266,13 @@ def judge(code, ep, text, ana):
                     return BAD("kind-confusion", "%s refuses text that is a well-formed %s on %s" % (ep, others[0], code),
                                "parsed as %s %s" % (rk, show(idn)), clause="prefix-collision:%s:%s-as-%s" % (code, src, dst),
                                kind=rk, also=also, ep=ep)
+                interp = None
+                if rk == "xkey" and mal and len(mal[0][1]) == 74:
+                    # does the returned node at least follow the key field (00||k -> private node, 02/03||x -> public node)?
+                    interp = "follows-key-field" if (mal[0][1][41] == 0) == (idn[1] is not None) else "contradicts-key-field"
                 return BAD("accepts-malformed", "%s refuses (payload after prefix: %s)" % (
                            ep, ", ".join("%s %d bytes" % (k, len(rest)) for k, rest in ana["malformed"]) or "no prefix of this network"),
-                           "parsed as %s %s" % (rk, show(idn)), clause=also, kind=rk, ep=ep)
+                           "parsed as %s %s" % (rk, show(idn)), clause=also, kind=rk, ep=ep, interp=interp)
     if ana["bech"] and not b58 and not absent and c == "Contract" and ep in SEG_EP and idn[1] in ("p2pkh_wit", "p2sh_wit", "p2tr"):
         want = {"p2pkh_wit": "p2wpkh", "p2sh_wit": "p2wsh", "p2tr": "p2tr"}[idn[1]]
         if want not in ana["seg"]:
